@@ -39,6 +39,11 @@ Definition marshal_header_destination (s : list N) (buf : wire_log) : outcome wi
 Definition marshal_header_sender (s : list N) (buf : wire_log) : outcome wire_log :=
   do _ <- validate_busname s; Ok (write_name 7 s buf).
 
+(* marshal/param/base.rs: fn marshal_objectpath (object paths in a message body, params::Base::ObjectPath
+   and ObjectPathRef): params::validate_object_path(s)?; write_string(s, ..); returns the string written *)
+Definition marshal_objectpath (s : list N) : outcome (list N) :=
+  do _ <- validate_object_path s; Ok s.
+
 (* `if let Some(x) = &msg.dynheader.field { marshal_header_field_x(byteorder, x, buf)?; }` *)
 Definition if_some (o : option (list N)) (f : list N -> wire_log -> outcome wire_log) (buf : wire_log)
   : outcome wire_log :=
@@ -156,6 +161,14 @@ Proof.
     apply bind_ok. eexists. split.
     { apply (if_some_validated _ _ _ _ _ _ validate_errorname_spec validate_errorname_total). split; [reflexivity|exact V6]. }
     rewrite <- !app_assoc. reflexivity.
+Qed.
+
+Lemma marshal_objectpath_spec s w : marshal_objectpath s = Ok w <-> (ValidPath s /\ w = s).
+Proof.
+  unfold marshal_objectpath. rewrite <- validate_object_path_spec.
+  destruct (validate_object_path s) as [[]| | | |]; cbn [bind]; split; try discriminate; try (intros [H _]; discriminate).
+  - intros H. inversion H. auto.
+  - intros [_ ->]. reflexivity.
 Qed.
 
 Lemma marshal_header_names_total h buf : ok_or_err (marshal_header_names h buf).
